@@ -25,7 +25,8 @@ EXPLANATION = (
     " (R7) every other function that reads the pointer's ETag and flips the pointer ties the validated version to that read; (R8) the lock owner token is a per-instance uuid4 (shared with C19.R8)."
     ' (R9) supports_cas returns exactly the flag create_lock branches on, and read_file_with_etag takes content and ETag from ONE get_object response. Conditional expressions (`x = read() if supports_cas else NONE`) are branches; records (NamedTuple) carrying the ETag / the owner test are looked through.'
     ' (R10) validation compares the base with a fresh read under the lock on every path (C01.R2): a definition of the validated object that is not a read is a violation.'
-    ' (R11) metadata files get fresh uuid names (C09.R1): two racers never write the same key. R3: conflict codes are exactly {PreconditionFailed, 412, ConditionalRequestConflict}.')
+    ' (R11) metadata files get fresh uuid names (C09.R1): two racers never write the same key. R3: conflict codes are exactly {PreconditionFailed, 412, ConditionalRequestConflict}.'
+    ' R3 reads error-code tables of (meaning, code) pairs and == chains.')
 NOT_DECIDED = "the schedules themselves; S3's conditional-write semantics"
 
 
